@@ -58,6 +58,10 @@ pub struct TState {
     pub on_notify: Option<NotifyFn>,
     pub isr: u32,
     pub guest_page_size: u32,
+    /// what the status register reads back: `(status & status_and) | status_or` — a device may clear
+    /// FEATURES_OK (features refused) or raise DEVICE_NEEDS_RESET / FAILED on its own
+    pub status_and: u32,
+    pub status_or: u32,
 }
 
 impl TState {
@@ -78,6 +82,8 @@ impl TState {
             on_notify: None,
             isr: 0,
             guest_page_size: 0,
+            status_and: !0,
+            status_or: 0,
         }
     }
 }
@@ -143,7 +149,7 @@ impl Transport for ModelTransport {
     fn get_status(&self) -> DeviceStatus {
         let mut s = self.st.borrow_mut();
         s.log.push((crate::hal::tick(), TCall::GetStatus));
-        DeviceStatus::from_bits_retain(s.status)
+        DeviceStatus::from_bits_retain((s.status & s.status_and) | s.status_or)
     }
     fn set_status(&mut self, status: DeviceStatus) {
         let mut s = self.st.borrow_mut();
